@@ -10,7 +10,7 @@ import sys
 import tempfile
 import zipfile
 
-DOC_BASE, AUX_BASE, DECOY_BASE, USER_BASE, ZIP_BASE = 1000, 2000, 3000, 5000, 4000
+from harness.impl.c16_blobs import DOC_BASE, aux_content, user_content, content_id, kind_id
 
 
 def exc_code(e):
@@ -67,27 +67,12 @@ def blob(kind, images):
     if t == 'doc':
         return doc_bytes(kind[1], images)
     if t == 'aux':
-        return b'AUX-%d-\x00\xff' % kind[1]
+        return aux_content(kind)
     if t == 'decoy':
         return b'\x00\x05\x16\x07\x00\x02\x00\x00Mac OS X        decoy-%d' % kind[1]
     if t == 'dir':
         return b''
     raise ValueError(kind)
-
-
-def blob_id(b):
-    if isinstance(b, str):
-        b = b.encode('latin-1', 'replace')
-    if isinstance(b, (bytes, bytearray)):
-        if b.startswith(b'AUX-'):
-            return AUX_BASE + int(b.split(b'-')[1])
-        if b.startswith(b'USR-'):
-            return USER_BASE + int(b.split(b'-')[1])
-    return 9999
-
-
-def kind_id(kind):
-    return {'doc': DOC_BASE, 'aux': AUX_BASE, 'decoy': DECOY_BASE, 'dir': 0}[kind[0]] + (kind[1] if len(kind) > 1 else 0)
 
 
 # ---- the property's own notion of where a relative path leads (not pycollada's, not posixpath's)
@@ -115,6 +100,28 @@ def lexical(dirparts, path):
     return stack, undone_named
 
 
+def make_zip(entries, variant):
+    """byte-level variants of one archive, all of which zipfile.ZipFile opens"""
+    zbuf = io.BytesIO()
+    comp = zipfile.ZIP_DEFLATED if variant in ('deflated', 'prepended-deflated') else zipfile.ZIP_STORED
+    with zipfile.ZipFile(zbuf, 'w', compression=comp) as z:
+        if variant == 'comment':
+            z.comment = b'archive comment \x00 with bytes \xff at the end of the file'
+        for i, (name, data) in enumerate(entries):
+            if variant == 'zip64' and not name.endswith('/'):
+                with z.open(name, 'w', force_zip64=True) as f:
+                    f.write(data)
+            elif variant == 'mixed' and i % 2:
+                z.writestr(name, data, compress_type=zipfile.ZIP_DEFLATED)
+            else:
+                z.writestr(name, data)
+    b = zbuf.getvalue()
+    if variant.startswith('prepended'):
+        # a self-extracting stub / junk in front of the first member: zipfile finds the directory from the end
+        b = b'#!/bin/sh\necho stub\nexit 0\n' + bytes(range(256)) + b
+    return b
+
+
 def run_case(case):
     import collada
     from collada.common import DaeError, DaeBrokenRefError
@@ -130,11 +137,7 @@ def run_case(case):
         cwd = os.path.join(top, 'o1', 'o2', 'o3', 'w')
         os.makedirs(cwd)
         os.chdir(cwd)
-        zbuf = io.BytesIO()
-        with zipfile.ZipFile(zbuf, 'w') as z:
-            for name, kind in members:
-                z.writestr(name, blob(kind, images))
-        zbytes = zbuf.getvalue()
+        zbytes = make_zip([(name, blob(kind, images)) for name, kind in members], case.get('zip_variant', 'plain'))
         for rel, kind in disk:
             d = os.path.dirname(rel)
             if d:
@@ -148,8 +151,18 @@ def run_case(case):
 
         def loader(fname):
             calls.append(fname)
-            j = user_map.get(fname)
-            return None if j is None else b'USR-%d' % j
+            ans = user_map.get(fname)
+            if ans is None:
+                return None
+            b = user_content(ans)
+            form = ans[2]
+            if form == 'bytearray':
+                return bytearray(b)
+            if form == 'memoryview':
+                return memoryview(b)
+            if form == 'str':
+                return b.decode('latin-1')
+            return b
 
         first_snap = {}
         for li, ld in enumerate(case['loads']):
@@ -191,9 +204,9 @@ def run_case(case):
                     try:
                         v = im.data
                         if ld['ignore'] and len(col.errors) > nerr:
-                            imgs.append([100 + exc_code(col.errors[-1]), 0 if not v else blob_id(v)])
+                            imgs.append([100 + exc_code(col.errors[-1]), content_id(v) if v else 0])
                         else:
-                            imgs.append([0, blob_id(v)])
+                            imgs.append([0, content_id(v)])
                     except Exception as e:  # noqa
                         imgs.append([exc_code(e), 0])
             obs.append({'code': code, 'data': data_id, 'member': member, 'imgs': imgs, 'snap': snaph})
@@ -259,7 +272,7 @@ def run_case(case):
                         continue      # absolute image paths are outside the property
                     if ld['loader']:
                         j = user_map.get(path)
-                        want = ('broken',) if j is None else ('data', USER_BASE + j)
+                        want = ('broken',) if j is None else ('data', content_id(user_content(j)))
                     elif is_zip:
                         mparts = member.split('/')[:-1] if member else []
                         if member and all(c not in ('', '.', '..') for c in member.split('/')):
